@@ -100,6 +100,18 @@ func c04Segment(r *rand.Rand, b []byte) enc.Wire {
 	for i := range cuts {
 		cuts[i] = 1 + r.Intn(len(b)-1)
 	}
+	if r.Intn(3) == 0 { // empty buffers: in the middle (a repeated cut, also twice in a row), in front, at the end
+		for n := 1 + r.Intn(2); n > 0; n-- {
+			switch r.Intn(4) {
+			case 0:
+				cuts = append(cuts, 0)
+			case 1:
+				cuts = append(cuts, len(b))
+			default:
+				cuts = append(cuts, cuts[r.Intn(len(cuts))])
+			}
+		}
+	}
 	sort.Ints(cuts)
 	if r.Intn(8) == 0 { // 1-byte segments
 		cuts = cuts[:0]
